@@ -147,6 +147,41 @@ def run(rep, tier, seed):
     rep.sample({"text": items[0]["text"], "expected_tree": items[0]["expect"]})
     rep.sample({"text": items[-1]["text"], "expected_tree": items[-1]["expect"]})
 
+    # 3b. the 3.x syntax switch (newxta = false): the same operator table applies to everything that exists in both
+    # syntaxes (quantifiers and the built-in functions are 4.x only)
+    def _old_ok(t):
+        if not isinstance(t, (tuple, list)):
+            return True
+        if isinstance(t, list):
+            return all(_old_ok(c) for c in t)
+        if t and (t[0] in ("quant", "builtin") or (t[0] == "bin" and t[1] == "XOR")):
+            return False        # not keywords of the 3.x syntax (keywords.cpp: NEW only)
+        return all(_old_ok(c) for c in t[1:] if isinstance(c, (tuple, list)))
+    old_items = [it for it in items if it["what"] != "random" and _old_ok(it["tree"])]
+    old_items += [it for it in items if it["what"] == "random" and _old_ok(it["tree"])][:3000 if quick else 40000]
+    if quick:
+        old_items = [it for i, it in enumerate(old_items) if it["what"] != "triple" or i % 2 == seed % 2]
+    ores = exprlab.run_exprs([it["text"] for it in old_items], model, batch=60, tag="o", newxta=0)
+    n_old = 0
+    for it, (r, case, crash) in zip(old_items, ores):
+        single = Case("replay", [case.steps[0], Step("exprs", 0, "global", 0, "S_EXPRESSION", "", it["text"])])
+        if crash is not None:
+            rep.crash(crash, single)
+            continue
+        if r.get("exc") is not None or r.get("nerr", 0) != 0 or "dump" not in r:
+            rep.violation("C02:valid-text-rejected(3.x syntax):" + sexpr.kind(sexpr.parse(it["expect"])),
+                          "expression rejected under the 3.x syntax switch: %r -> %s %s" % (it["text"], r.get("exc"), r.get("err0")),
+                          single)
+            continue
+        n_old += 1
+        if r["dump"] != it["expect"]:
+            d = sexpr.first_diff(sexpr.parse(it["expect"]), sexpr.parse(r["dump"]))
+            rep.violation("C02:tree-differs:%s" % d,
+                          "text %r parsed under the 3.x syntax switch to %s, the operator table prescribes %s" % (
+                              it["text"], r["dump"], it["expect"]), single)
+        rep.observe("old:" + r["dump"] if sexpr.count_nodes(sexpr.parse(r["dump"])) >= 3 else None)
+    rep.extra["old_syntax_texts_parsed"] = n_old
+
     # 4. the same trees inside whole models: as update (expression list) and guard of an edge, no static analysis
     n_model = 1500 if quick else 20000
     mcases = []
@@ -199,6 +234,43 @@ def run(rep, tier, seed):
         else:
             v = rng.choice([2 ** 31 - 1, 2 ** 31, 2 ** 32, 2 ** 63, 10 ** rng.randint(1, 25)]) + rng.randint(-3, 3)
             lit_items.append(("int", str(abs(v))))
+    # decimal literals just beside the midpoint of two adjacent doubles: any conversion that rounds twice (through
+    # float, long double, or a truncated digit string) picks the wrong neighbour for these
+    from decimal import Decimal, getcontext
+    getcontext().prec = 1200
+    for _ in range(600 if quick else 12000):
+        e = rng.choice([rng.randint(-40, 60), rng.randint(-1000, 960), rng.randint(-8, 30)])
+        x = (2 ** 52 + rng.getrandbits(52)) * 2.0 ** (e - 52)
+        if rng.random() < 0.15:
+            x = rng.getrandbits(rng.randint(1, 52)) * 5e-324        # subnormals
+        if x == 0.0 or x == float("inf"):
+            continue
+        import math
+        y = math.nextafter(x, float("inf"))
+        if y == float("inf"):
+            continue
+        mid = (Decimal(x) + Decimal(y)) / 2
+        digits = format(mid, "f")
+        if "." not in digits:
+            digits += ".0"
+        if len(digits) > 1100:
+            continue
+        k = rng.choice([1, 3, 12, 25])
+        ip, fp = digits.split(".")
+        up = ip + "." + fp + "0" * k + "1"                      # just above the midpoint
+        # just below: decrement the last digit of the exact expansion and append 9s
+        body = (ip + fp).rstrip("0") or "0"
+        scale = len(fp) - (len(ip + fp) - len((ip + fp).rstrip("0"))) if (ip + fp).rstrip("0") else 0
+        dn = None
+        if body != "0" and scale >= 0:
+            b2 = str(int(body) - 1).rjust(len(body), "0")
+            b2 = b2 + "9" * k
+            sc = scale + k
+            b2 = b2.rjust(sc + 1, "0")
+            dn = b2[:-sc] + "." + b2[-sc:]
+        for t in (up, dn):
+            if t and len(t) < 1150:
+                lit_items.append(("dbl", t))
     lres = exprlab.run_exprs([t for _, t in lit_items], model, batch=60, tag="l")
     for (kind, text), (r, case, crash) in zip(lit_items, lres):
         single = Case("replay", [case.steps[0], Step("exprs", 0, "global", 1, "S_EXPRESSION", "", text)])
